@@ -1,8 +1,138 @@
-import Karp.Driver.Proto
+import Karp.Driver.ReqJson
 
 namespace Karp.Driver.C12
-open Lean Karp.Driver
+open Lean Karp.Driver Karp.Driver.ReqJson Karp.Req Karp.Spec.K8s
 
-def handle : Handler := fun op _ _ => .error s!"unknown op {op}"
+/-- `c12.new`: one constructor call.  in: {key, op, values, minValues}; impl: snapshot | {"panic":..} -/
+def opNew (inp impl : Json) : Except String Resp := do
+  let key ← strF inp "key"
+  let e ← parseExpr inp
+  let probes ← strList (← fld inp "probes")
+  match Req.new key e.op e.minValues e.values with
+  | .error _ =>
+    -- the model says the Go code panics (index out of range on values[0]); not a property violation by itself
+    pure { model := some (jObj [("panic", jStr "index-out-of-range")]), spec := some true }
+  | .ok r =>
+    let model := jObj [("snap", snap r), ("operator", jStr (opName r.operator)), ("len", jInt r.len),
+                       ("has", jArr (probes.map (fun v => jBool (r.has v))))]
+    -- property on the implementation: for validated operands, Has = Kubernetes semantics on every probe
+    let (ok, why) ← match fldOpt impl "has" with
+      | none => pure (false, "implementation produced no result (panic?) where the constructor must succeed")
+      | some h => do
+        let hs ← boolList h
+        if !(validOperands e.op e.values) then pure (true, "")
+        else
+          let bad := (probes.zip hs).find? (fun (v, b) => b != k8sMatch e.op e.values (some v))
+          match bad with
+          | none => pure (true, "")
+          | some (v, b) => pure (false, s!"Has({v.quote}) = {b} but Kubernetes {opName e.op} {e.values} gives {!b}")
+    pure { model := some model, spec := some ok, why := why }
+
+/-- `c12.pair`: two requirements on one key, each an intersection of constructor calls. -/
+def opPair (inp impl : Json) : Except String Resp := do
+  let key ← strF inp "key"
+  let ea ← (← arrF inp "a").mapM parseExpr
+  let eb ← (← arrF inp "b").mapM parseExpr
+  let probes ← strList (← fld inp "probes")
+  -- a constructor that reads `values[0]` of an empty operand list panics in Go; the model says so too
+  let panicResp : Resp := { model := some (jObj [("panic", jStr "index-out-of-range")]), spec := some true }
+  let a ← match build key ea with | .ok r => pure r | .error "panic" => return panicResp | .error e => throw e
+  let b ← match build key eb with | .ok r => pure r | .error "panic" => return panicResp | .error e => throw e
+  let ab := a.inter b
+  let ba := b.inter a
+  let hasRow (r : Req) := jArr (probes.map (fun v => jBool (r.has v)))
+  let model := jObj [
+    ("a", snap a), ("b", snap b), ("ab", snap ab), ("ba", snap ba),
+    ("overlapAB", jBool (a.hasIntersection b)), ("overlapBA", jBool (b.hasIntersection a)),
+    ("hasA", hasRow a), ("hasB", hasRow b), ("hasAB", hasRow ab), ("hasBA", hasRow ba),
+    ("lenAB", jInt ab.len), ("opAB", jStr (opName ab.operator))]
+  -- spec on the implementation's observations
+  let res : Except String (Bool × String) := do
+    let hA ← boolList (← fld impl "hasA")
+    let hB ← boolList (← fld impl "hasB")
+    let hAB ← boolList (← fld impl "hasAB")
+    let hBA ← boolList (← fld impl "hasBA")
+    let oAB ← boolF impl "overlapAB"
+    let oBA ← boolF impl "overlapBA"
+    let valid := allValid ea && allValid eb
+    let rows := probes.zip (hA.zip (hB.zip (hAB.zip hBA)))
+    -- (1) each operand admits exactly what Kubernetes admits for the conjunction of its expressions
+    if valid then
+      match rows.find? (fun (v, x, y, _, _) => x != specHas ea v || y != specHas eb v) with
+      | some (v, _) => return (false, s!"operand admits {v.quote} differently from Kubernetes semantics")
+      | none => pure ()
+    -- (2) the intersection admits exactly the values both admit (both orders)
+    match rows.find? (fun (_, x, y, z, w) => z != (x && y) || w != (x && y)) with
+    | some (v, _) => return (false, s!"intersection disagrees with (Has a ∧ Has b) on {v.quote}")
+    | none => pure ()
+    -- (3) the quick overlap test agrees with "some value is admitted by both"
+    if valid then
+      let cands := candidates [ea, eb] probes
+      let ex := cands.any (fun v => specHas ea v && specHas eb v)
+      if oAB != ex || oBA != ex then
+        return (false, s!"HasIntersection = {oAB}/{oBA} but a common admitted value {if ex then "exists" else "does not exist"}")
+    -- (4) minValues of the intersection is the max
+    let mvAB ← intO (← fld impl "ab") "minValues"
+    if mvAB != maxOpt a.minValues b.minValues then return (false, "minValues of the intersection is not the maximum")
+    pure (true, "")
+  let (ok, why) := match res with
+    | .ok x => x
+    | .error e => (false, "implementation output unusable (panic?): " ++ e)
+  pure { model := some model, spec := some ok, why := why }
+
+def parseReqs (j : Json) : Except String (List (String × List ExprJ)) := do
+  (← asArr j).mapM (fun e => do
+    let k ← strF e "key"
+    let es ← (← arrF e "exprs").mapM parseExpr
+    pure (k, es))
+
+def buildReqs (l : List (String × List ExprJ)) : Except String Reqs :=
+  l.foldlM (fun (R : Reqs) (k, es) => do
+    -- Requirements.Add of each constructed requirement in turn (as the harness does)
+    let rs ← es.mapM (fun e => match Req.new k e.op e.minValues e.values with
+      | .ok r => pure r
+      | .error _ => throw "panic")
+    pure (R.add rs)) []
+
+/-- `c12.compat`: `A.Compatible(B, allowUndefined)` and `A.Intersects(B)` -/
+def opCompat (inp impl : Json) : Except String Resp := do
+  let ja ← parseReqs (← fld inp "a")
+  let jb ← parseReqs (← fld inp "b")
+  let allowWK ← boolF inp "allowWellKnown"
+  let U := if allowWK then Karp.Gen.Labels.wellKnownLabels else []
+  let panicResp : Resp := { model := some (jObj [("panic", jStr "index-out-of-range")]), spec := some true }
+  let A ← match buildReqs ja with | .ok r => pure r | .error "panic" => return panicResp | .error e => throw e
+  let B ← match buildReqs jb with | .ok r => pure r | .error "panic" => return panicResp | .error e => throw e
+  let model := jObj [("compatible", jBool (A.compatible B U)), ("intersects", jBool (A.intersects B))]
+  -- spec: key by key, does some (possibly absent) value allowed by A satisfy B?  (C12_compatible's right-hand side,
+  -- evaluated with the complete candidate set)
+  let allExprs := (ja.map (·.2)) ++ (jb.map (·.2))
+  let cands := candidates allExprs []
+  let specOk := B.all (fun (k, b) =>
+    let xs : List (Option Val) := none :: cands.map some
+    xs.any (fun x => nodeAllows A U k x && b.admits x))
+  let res : Except String (Bool × String) := do
+    let c ← boolF impl "compatible"
+    if c != specOk then
+      return (false, s!"Compatible = {c} but key-by-key satisfiability is {specOk}")
+    pure (true, "")
+  let (ok, why) := match res with
+    | .ok x => x
+    | .error e => (false, "implementation output unusable (panic?): " ++ e)
+  pure { model := some model, spec := some ok, why := why }
+
+/-- `c12.atoi`: the model's `atoi` against `strconv.Atoi` -/
+def opAtoi (inp _impl : Json) : Except String Resp := do
+  let ss ← strList (← fld inp "strings")
+  let model := jArr (ss.map (fun s => let r := atoiRaw s; jObj [("v", jInt r.1), ("ok", jBool r.2)]))
+  pure { model := some model }
+
+def handle : Handler := fun op inp impl =>
+  match op with
+  | "c12.new" => opNew inp impl
+  | "c12.pair" => opPair inp impl
+  | "c12.compat" => opCompat inp impl
+  | "c12.atoi" => opAtoi inp impl
+  | _ => .error s!"unknown op {op}"
 
 end Karp.Driver.C12
